@@ -233,6 +233,22 @@ func c13Run(c *Ctx, tp *tape.Tape, extra map[string]any) *Failure {
 			oo := lo
 			oo.World = x.w
 			x.w.DevName = d.name
+			polStart := x.cur
+			if tp.Next(5) == 0 {
+				// newpolicy.sh takes no device lock: a new policy may become
+				// current while the session runs.
+				at := 4 + tp.Next(12)
+				oo.OnLine = func(k int, line string) {
+					if k == at && x.cur == polStart {
+						v := variants[d.name]
+						v[0] = (v[0] + 1) % 3
+						variants[d.name] = v
+						mk(x.cur + 1)
+						x.writePolicy(x.cur + 1)
+						logf("   (policy p%d became current during the session, at device line %d)", x.cur, k)
+					}
+				}
+			}
 			faulty := tp.Next(3) == 0
 			if faulty {
 				oo.Faults = []cisco.Fault{{At: 3 + tp.Next(25), Kind: []string{"close", "error-text", "stall"}[tp.Next(3)]}}
@@ -245,15 +261,30 @@ func c13Run(c *Ctx, tp *tape.Tape, extra map[string]any) *Failure {
 			}
 			ok := r.Res.Exit == 0 && r.Trouble == "" && r.Res.Panic == ""
 			if ok {
-				d.obs, d.obsPol, d.damaged = obsApproveOK, x.cur, false
+				// What was pushed is the code of the policy the run started with.
+				d.obs, d.obsPol, d.damaged = obsApproveOK, polStart, false
 			}
-			what = fmt.Sprintf("approve %s at p%d: exit %d (faults fired: %v)", d.name, x.cur, r.Res.Exit, r.Dev.FaultsFired)
+			what = fmt.Sprintf("approve %s at p%d: exit %d (faults fired: %v)", d.name, polStart, r.Res.Exit, r.Dev.FaultsFired)
 		case op <= 8: // compare
 			oo := lo
 			oo.World = x.w
 			oo.Compare = true
 			oo.Brief = tp.Next(2) == 0 // compare-all runs 'do-approve --brief compare'
 			x.w.DevName = d.name
+			polStart := x.cur
+			if tp.Next(6) == 0 {
+				at := 4 + tp.Next(6)
+				oo.OnLine = func(k int, line string) {
+					if k == at && x.cur == polStart {
+						v := variants[d.name]
+						v[0] = (v[0] + 1) % 3
+						variants[d.name] = v
+						mk(x.cur + 1)
+						x.writePolicy(x.cur + 1)
+						logf("   (policy p%d became current during the session, at device line %d)", x.cur, k)
+					}
+				}
+			}
 			if tp.Next(4) == 0 {
 				oo.Faults = []cisco.Fault{{At: 3 + tp.Next(8), Kind: []string{"close", "stall"}[tp.Next(2)]}}
 			}
@@ -264,13 +295,13 @@ func c13Run(c *Ctx, tp *tape.Tape, extra map[string]any) *Failure {
 			case disturbed:
 				d.obs = obsUnjudged
 			case strings.Contains(r.RunLog, "comp: device unchanged"):
-				d.obs, d.obsPol, d.damaged = obsUptodate, x.cur, false
+				d.obs, d.obsPol, d.damaged = obsUptodate, polStart, false
 			case strings.Contains(r.RunLog, "comp: *** device changed"):
-				d.obs, d.obsPol, d.damaged = obsDiff, x.cur, false
+				d.obs, d.obsPol, d.damaged = obsDiff, polStart, false
 			default:
 				d.obs = obsUnjudged
 			}
-			what = fmt.Sprintf("compare %s at p%d: exit %d -> %s", d.name, x.cur, r.Res.Exit, d.obs)
+			what = fmt.Sprintf("compare %s at p%d: exit %d -> %s", d.name, polStart, r.Res.Exit, d.obs)
 		case op == 9: // manual drift on the device
 			d.node.Objs = append(d.node.Objs, &cisco.Obj{Head: fmt.Sprintf("ip route 10.77.%d.0 255.255.255.0 10.9.0.7", tp.Next(50))})
 			what = "manual change on " + d.name
